@@ -442,6 +442,13 @@ class Interp(ExtMixin):
             r = h(self, st, op, a, True)
             if r is not NotImplemented:
                 return r
+        if isinstance(a, bytes) and is_intlike(b) and isinstance(op, ast.Mult) and set(a) <= {0} and len(a) == 1:
+            from .xbuf import ByteStr
+
+            n = b if not is_sym(b) else z3.If(b > 0, b, 0)  # bytes * k is empty for k <= 0
+            if not is_sym(b):
+                n = max(b, 0)
+            return ByteStr(n, z3.K(z3.IntSort(), z3.IntVal(0)), "zeros")
         if isinstance(a, str) and isinstance(b, str) and isinstance(op, ast.Add):
             return a + b
         if isinstance(a, tuple) and isinstance(b, tuple) and isinstance(op, ast.Add):
@@ -618,6 +625,27 @@ class Interp(ExtMixin):
             if attr in o.attrs:
                 yield st, o.attrs[attr]
                 return
+            klass = o.attrs.get("__class__")
+            if isinstance(klass, SymObj):
+                # instance of an abstract class object: class attributes, then methods of the python class it models
+                if attr in klass.attrs:
+                    yield st, klass.attrs[attr]
+                    return
+                inst_cls = getattr(klass, "instance_class", None)
+                if inst_cls:
+                    found = self.find_method(inst_cls, attr)
+                    if found:
+                        fnode = src.func_node(*found)
+                        decos = src.decorators(fnode)
+                        fv = FuncVal(found[0], found[1], klass if "classmethod" in decos else (None if "staticmethod" in decos else o))
+                        if "property" in decos:
+                            yield from self.call_function(st, fv, [], {}, node)
+                        else:
+                            yield st, fv
+                        return
+            if attr == "__class__" and klass is None:
+                yield st, ClassVal(o.cls, getattr(self, "class_home", {}).get(o.cls))
+                return
             yield from self.class_attr(st, o, o.cls, attr, node)
             return
         if isinstance(o, HRef):
@@ -631,6 +659,9 @@ class Interp(ExtMixin):
             if attr in ("append", "insert", "remove", "extend", "index", "pop", "copy"):
                 yield st, BuiltinVal("list." + attr, o)
                 return
+        if isinstance(o, tuple) and attr in ("index",):
+            yield st, BuiltinVal("list." + attr, o)
+            return
         if isinstance(o, PDict):
             if attr in ("items", "keys", "values", "get", "setdefault", "update", "copy"):
                 yield st, BuiltinVal("dict." + attr, o)
@@ -1144,6 +1175,10 @@ class Interp(ExtMixin):
                 return True
             if isinstance(o, (HRef, SymObj)) and kn is not None and self.is_subclass(o.cls, kn):
                 return True
+            if isinstance(k, SymObj) and isinstance(o, SymObj):
+                kc = o.attrs.get("__class__")
+                if isinstance(kc, SymObj) and kc.uid == k.uid:
+                    return True
         return False
 
     def is_subclass(self, c, k):
@@ -1442,6 +1477,8 @@ class Interp(ExtMixin):
         elif isinstance(target, (ast.Tuple, ast.List)):
             if isinstance(v, PList):
                 v = tuple(v.items)
+            if not isinstance(v, tuple) and hasattr(v, "concrete_items"):
+                v = tuple(v.concrete_items(self, st))
             if not isinstance(v, tuple):
                 raise Unsupported("unpacking of non-tuple")
             if len(v) != len(target.elts):
@@ -2116,8 +2153,8 @@ SPEC_BUILTINS = {
     "forall", "exists", "implies", "iff", "ite", "forall_int", "forall_live", "align_up", "pow2", "pymod", "byte",
     "slen", "same_storage", "same_obj",
 }
-PY_BUILTINS = {"len", "min", "max", "bool", "int", "range", "enumerate", "zip", "list", "tuple", "isinstance", "sum",
-               "str", "type", "hasattr", "getattr", "abs", "dict"}
+PY_BUILTINS = {"bytes", "len", "min", "max", "bool", "int", "range", "enumerate", "zip", "list", "tuple", "isinstance", "sum",
+               "str", "type", "hasattr", "getattr", "abs", "dict", "reversed", "all", "any"}
 
 
 def _named_list(lst, prefix):
